@@ -174,6 +174,18 @@ CHECKS = {
          "is the paper's lemma; K=3, L<=3 for clause B",
     technique="symbolic execution of the real numpy code on z3 reals + SMT (QF_LRA / NRA with an integer ceil)",
     design_ref="DESIGN.md §3 C08"),
+ "C04": dict(
+    category="other",
+    text="Formula-level decision with a trusted analytic base: the scale each algorithm's real compute_radius/compute_alpha/"
+         "compute_beta returns is extracted by symbolic execution (round, δ, design count, noise variance symbolic; ln opaque with "
+         "its argument recorded), pushed through the real design_space.update / region update, and the resulting standardised "
+         "half-width (rectangles) or squared radius (ellipsoids) is proved by z3 (NRA) large enough that a standard Gaussian / "
+         "χ² tail bound times the number of (design, objective) events fits under 6δ/(π²τ²), whose sum over τ is δ. A negative "
+         "control (contraction 64) must be refuted; refutations are confirmed numerically with exact tails over the horizon.",
+    note="trusted: Gaussianity of sample means / GP posteriors, tail bounds, Σ τ⁻² = π²/6, exp/ln algebra and Taylor lower "
+         "bounds; m = 2..3 (quick) / 2..6 (thorough; PaVeBaPartialGP ellipsoid 2..4); VOGP_AD's β and empirical-β Auer outside; " + REAL,
+    technique="program extraction by symbolic execution + SMT (QF_NRA) proof obligations on tail bounds",
+    design_ref="DESIGN.md §3 C04"),
 }
 
 _WIP = "check not built yet (work in progress; will be claimed once its harness exists)"
